@@ -16,7 +16,7 @@ Scen == {s \in [meth : {"MS", "SS", "DC"}, args : (SUBSET ArgNames) \ {{}}, pre 
            /\ (s.cat => ~s.scaled /\ ~s.multi /\ s.iters = 50 /\ "p" \in s.args)
            /\ (s.iters = 0 => ("gx" \in s.args \/ "gu" \in s.args))
            \* scaled states/controls (C14 x C19): a thin slice of the space
-           /\ (s.scaled => s.post = "none" /\ s.iters = 50 /\ s.pre = [p |-> 1, q |-> 1, gx |-> 0, gu |-> 0])}
+           /\ (s.scaled => s.post = "none" /\ s.pre = [p |-> 1, q |-> 1, gx |-> 0, gu |-> 0])}
 InitS == meth \in Scen /\ Init
 NextS == UNCHANGED <<vars, meth>>
 Emit == LET s == meth
